@@ -176,7 +176,8 @@ func (i *iteratorRole) ProcessTemplates(workflowRepo repos.IRepo, loadSubworkflo
 			go func(roleIdx int) {
 				defer wg.Done()
 				role := i.Roles[roleIdx]
-				err = role.ProcessTemplates(workflowRepo, loadSubworkflow, baseConfigStack)
+				// goroutine-local err: the shared named result would let a sibling's success overwrite this failure
+				err := role.ProcessTemplates(workflowRepo, loadSubworkflow, baseConfigStack)
 				if err != nil {
 					roleErrors = multierror.Append(roleErrors, err)
 				}
@@ -245,6 +246,7 @@ func (i *iteratorRole) expandTemplate() (err error) {
 				locals := make(map[string]string)
 				locals[i.For.GetVar()] = localValue
 				var newRole Role
+				var err error // goroutine-local, see ProcessTemplates
 				newRole, err = i.template.generateRole(locals)
 				if err != nil {
 					roleErrors = multierror.Append(roleErrors, err)
